@@ -104,7 +104,7 @@ Definition result%(i)d : list bool :=
       let s0 := sys_init sp g %(inputs)s [] in
       let ops := [%(ops)s] in
       let s := sys_run ev%(i)d ops s0 in
-      [ json_eqb (enc_cstate (s_c s)) %(final)s;
+      [ py_eqb (enc_cstate (s_c s)) %(final)s;
         same_keys (s_inflight s) [%(infl)s];
         Nat.eqb (length (sys_api_ops ev%(i)d ops s0)) %(napi)d;
         Bool.eqb (s_fault s) %(fault)s;
@@ -391,7 +391,7 @@ Definition result%(i)d : list bool :=
   match dec_spec %(spec)s, dec_graph %(graph)s with
   | Some sp, Some g =>
       let s := isys_run ev%(i)d [%(ops)s] (isys_init sp g %(inputs)s []) in
-      [ json_eqb (enc_cstate (si_c s)) %(final)s;
+      [ py_eqb (enc_cstate (si_c s)) %(final)s;
         same_ikeys (si_inflight s) [%(keys)s];
         Bool.eqb (si_fault s) %(fault)s;
         negb (si_wiped s) ]
